@@ -930,10 +930,55 @@ void begin_option_group(const char *description)
 }
 
 
+#ifdef UNCRUSTIFY_VERIF
+//-----------------------------------------------------------------------------
+// verification hook: at exit, write the names of all options whose value was
+// read to the file named by the environment variable UNC_VERIF_READS
+static void verif_dump_option_reads()
+{
+   const char *path = getenv("UNC_VERIF_READS");
+
+   if (  path == nullptr
+      || *path == 0)
+   {
+      return;
+   }
+   FILE *pf = fopen(path, "w");
+
+   if (pf == nullptr)
+   {
+      return;
+   }
+
+   for (auto &og : option_groups)
+   {
+      for (auto *o : og.options)
+      {
+         if (o->verifWasRead())
+         {
+            fprintf(pf, "%s\n", o->name());
+         }
+      }
+   }
+
+   fclose(pf);
+}
+#endif
+
+
 //-----------------------------------------------------------------------------
 void register_option(GenericOption *option)
 {
    assert(!option_groups.empty());
+#ifdef UNCRUSTIFY_VERIF
+   static bool verif_registered = false;
+
+   if (!verif_registered)
+   {
+      verif_registered = true;
+      atexit(verif_dump_option_reads);
+   }
+#endif
 
    option_groups.back().options.push_back(option);
    option_map.emplace(option->name(), option);
